@@ -33,6 +33,8 @@
 //!        thorough: all |s1| <= 2, |s2| <= 2;
 //!    (b) rotation without any checkpoint: s0; s1 with max = size of s0's log; quick: s0 in {[put a v2], filler},
 //!        |s1| = 1; thorough: s0 in {[put a v1], [put a v2], filler}, 1 <= |s1| <= 2;
+//!    (d) a size limit smaller than one record (the writer rotates, then writes the record whatever its size): x / x; y /
+//!        s0; CKPT; x[; y] with max in {size of x's record - 1, 9, 1};
 //!    (c) checkpoint followed by rotation: s0; CKPT; x; y with max = size of x's record (y rotates), all x, y;
 //!        quick: s0 = [put a v1]; thorough: s0 in {[], [put a v1], [put a v2, put b v1]}; and the same followed by a
 //!        second checkpoint and z: [put a v1]; CKPT; x; y; CKPT; z, quick: z in {[], [put a v1], [del a]},
@@ -440,6 +442,9 @@ struct RotRun {
     /// end offsets (in the current log file) of the ops whose record is in it
     seg_ends: Vec<usize>,
     rotations: usize,
+    /// the size limit is smaller than a single record of the script (family (d)): the cuts are judged even when the store
+    /// did not rotate
+    oversize: bool,
     /// a rotation moved acknowledged ops that no completed checkpoint covers into a rotated file
     uncovered_rotated: bool,
     /// ops covered by the last completed checkpoint
@@ -488,7 +493,7 @@ fn run_rot(dir: &Path, uni: Uni, script: &[u8], max: u64) -> Result<RotRun, Stri
     for f in [l.clone(), rotated(&l, 1), rotated(&l, 2), rotated(&l, 3), snap.clone()] { let _ = std::fs::remove_file(f); }
     let st = TensorStore::open_durable(&l, rot_cfg(max)).map_err(|e| format!("open_durable: {e}"))?;
     let mut m = Model::new();
-    let mut r = RotRun { max, log: vec![], has_snap: false, states: vec![m.clone()], before_seg: 0, seg_ends: vec![], rotations: 0, uncovered_rotated: false, covered: 0, boundary: vec![], ops: vec![], uni };
+    let mut r = RotRun { max, log: vec![], has_snap: false, states: vec![m.clone()], before_seg: 0, seg_ends: vec![], rotations: 0, oversize: false, uncovered_rotated: false, covered: 0, boundary: vec![], ops: vec![], uni };
     let mut ino = inode(&l);
     let mut done = 0usize;
     for (i, &c) in script.iter().enumerate() {
@@ -546,7 +551,7 @@ fn rot_lo(r: &RotRun) -> usize { if r.seg_ends.len() >= 2 { r.seg_ends[r.seg_end
 /// crash with the current log cut at `cut`, the rotated files as they are; recover from the latest snapshot (if
 /// a checkpoint completed) + log
 fn eval_rot_cut(dir: &Path, r: &RotRun, cut: usize) -> Option<Out> {
-    if r.rotations == 0 { return None; } // precondition of the family: the script made the log rotate
+    if r.rotations == 0 && !r.oversize { return None; } // precondition of the family: the script made the log rotate (or a record exceeds the limit)
     let l = dir.join("rot.wal");
     let snap = dir.join("rot.snap");
     let c = dir.join("rotc.wal");
@@ -848,10 +853,18 @@ pub fn run(tier: Tier, _seed: u64) -> Report {
             let zs: Vec<Vec<u8>> = if thorough { scripts(4, 1) } else { vec![vec![], vec![0u8], vec![2]] };
             for z in zs { let mut sc = vec![0u8, CKPT, x, y, CKPT]; sc.extend(&z); cases.push((sc, mx)); }
         } }
+        // (d) a size limit SMALLER than one record (auto_rotate on: the writer rotates and then writes the record whatever its
+        //     size, so a whole acknowledged record may be longer than max_size_bytes): x / x; y / s0; CKPT; x[; y]
+        let n_regular = cases.len();
+        for x in 0..4u8 { let mx = size(&[x]); for lim in [mx - 1, 9, 1] {
+            cases.push((vec![x], lim));
+            cases.push((vec![0u8, CKPT, x], lim));
+            if thorough || lim == mx - 1 { for y in 0..4u8 { cases.push((vec![x, y], lim)); cases.push((vec![1u8, CKPT, x, y], lim)); } }
+        } }
         let mut seen_boundary: BTreeSet<(Vec<u8>, u64)> = BTreeSet::new();
-        for (script, max) in cases {
+        for (ci, (script, max)) in cases.into_iter().enumerate() {
             let r = match run_rot(&dir, uni, &script, max) {
-                Ok(r) => r,
+                Ok(mut r) => { r.oversize = ci >= n_regular; r },
                 Err(e) => { rep.check(OB_ROTCK, false, &|| json!({"uni": uni.id, "rot": script, "max": max, "cut": 0}), &|| e.clone()); continue; },
             };
             let sc = &script;
